@@ -102,6 +102,18 @@ func emitPfxCase(r *vlib.R, emit func(string), ip []byte, bits int, v4 []byte) i
 	return n
 }
 
+// breakSeparator keeps every nibble where it is and replaces one label
+// separator in front of .ip6.arpa by another byte: the labels are no longer
+// all one character although the length is unchanged.
+func breakSeparator(r *vlib.R, name string) string {
+	b := []byte(name)
+	i := 1 + 2*r.Intn(31)
+	if i < len(b) && b[i] == '.' {
+		b[i] = vlib.Pick(r, []byte{'-', '_', 'a', '0', 'f', ':', ' '})
+	}
+	return string(b)
+}
+
 var arpaBad = []string{
 	"ip6.arpa.", ".ip6.arpa.", "1.ip6.arpa.", "1.0.0.127.in-addr.arpa.", "example.org.", "",
 }
@@ -110,7 +122,7 @@ func genArpaMalformed(r *vlib.R) string {
 	a := [16]byte(r.Bytes(16))
 	good := arpaName(a)
 	labels := strings.Split(strings.TrimSuffix(good, ".ip6.arpa."), ".")
-	switch r.Intn(12) {
+	switch r.Intn(13) {
 	case 0:
 		return strings.Join(labels[1:], ".") + ".ip6.arpa."
 	case 1:
@@ -137,6 +149,8 @@ func genArpaMalformed(r *vlib.R) string {
 	case 10:
 		labels[r.Intn(32)] = vlib.Pick(r, []string{"-", "/", ":", "@", "`", "G", "x"})
 		return strings.Join(labels, ".") + ".ip6.arpa."
+	case 11:
+		return breakSeparator(r, good)
 	}
 	return vlib.Pick(r, arpaBad)
 }
@@ -200,7 +214,10 @@ func genPrefixEnt(r *vlib.R) ent {
 }
 
 var clientNetPool = []ent{e4("c0a80000", 16), e4("0a000000", 8), e6("20010db8000000000000000000000000", 32), e6("fd000000000000000000000000000000", 8),
-	{kind: 'b'}, e4("cb007105", 32), e6("20010db8aaaa00000000000000000001", 128), e4("c0a80100", 23)}
+	{kind: 'b'}, e4("cb007105", 32), e6("20010db8aaaa00000000000000000001", 128), e4("c0a80100", 23),
+	// IPv6-only client sets that cover ::ffff:0:0/96 bit-wise: IPv4 sources stay outside
+	e6("00000000000000000000000000000000", 0), e6("00000000000000000000000000000000", 1), e6("00000000000000000000000000000000", 64),
+	e6("00000000000000000000000000000000", 80), e6("00000000000000000000ffff00000000", 96), e4("00000000", 0)}
 
 var zonePool = []string{"example.org", "Example.ORG.", " corp.test. ", "", "org", "deep.sub.example.net.", "\tx.y.\n", "."}
 
@@ -581,6 +598,9 @@ func genPTR(r *vlib.R, g *genCfg, emit func(string)) int {
 			e[vlib.Pick(r, []int{8, 15, 13, 12, 9})] ^= byte(1 << uint(r.Intn(8)))
 		}
 		name = arpaName(e)
+		if r.Chance(1, 6) {
+			name = breakSeparator(r, name)
+		}
 	}
 	client := genClient(r, g, !r.Chance(1, 8))
 	pf, pw := qnameField(r, name, true)
